@@ -15,9 +15,9 @@ import (
 func TestVerif_C09(t *testing.T) {
 	r := verifrt.Start(t, "C09")
 	defer r.Finish()
-	r.Rule("case = random tree (1-2 roots, depth<=4, width<=4, <=27 nodes) on a fresh actor system + an operation mix in {one stop at a time, 2-6 goroutines of overlapping stops (Kill, PID.Stop by the parent, PID.Shutdown, PoisonPill, ctx-stop from the parent's turn, supervisor Stop directive), stops+SpawnChild, stops+Restart, all, then ActorSystem.Stop}; oracle = PostStop order over the hook log using the name-encoded ancestry, IsRunning/ActorOf of every subtree member when a synchronous stop returns, liveness gauge vs tree registration and ActorOf at death-watch quiescence, structural audit of pid_tree (indexes, parent/descendant links, watcher symmetry, count); non-trivial = two stop operations on an ancestor/descendant (or same) pair overlapped in time, or (mix single) a stop of a node with descendants returned and was judged; distinct by knob tuple and seed")
+	r.Rule("case = random tree (1-2 roots, depth<=4, width<=4, <=22 nodes) on a fresh actor system + an operation mix in {one stop at a time, 2-6 goroutines of overlapping stops (Kill, PID.Stop by the parent, PID.Shutdown, PoisonPill, ctx-stop from the parent's turn, supervisor Stop directive), stops+SpawnChild, stops+Restart, all, then ActorSystem.Stop}; oracle = PostStop order over the hook log using the name-encoded ancestry, IsRunning/ActorOf of every subtree member when a synchronous stop returns, liveness gauge vs tree registration and ActorOf at death-watch quiescence, structural audit of pid_tree (indexes, parent/descendant links, watcher symmetry, count); non-trivial = two stop operations on an ancestor/descendant (or same) pair overlapped in time, or (mix single) a stop of a node with descendants returned and was judged; distinct by knob tuple and seed")
 	rng := r.Rand(9)
-	n := r.N(96, 2400)
+	n := r.N(80, 2400)
 	for i := 0; i < n; i++ {
 		k := c09GenKnobs(rng, i+r.Batch*3)
 		seed := rng.Int63()
@@ -36,8 +36,18 @@ func TestVerif_C09(t *testing.T) {
 		if obs.Watchdog != "" {
 			r.Inconclusive("%s [%s seed=%d]", obs.Watchdog, k.String(), seed)
 		}
+		for pi, ms := range obs.PhaseMs {
+			r.Count([]string{"ms_build", "ms_ops", "ms_async_wait", "ms_quiesce", "ms_judge"}[pi], ms)
+		}
+		r.Max("max_case_ms", obs.WallMs)
+		r.Count("total_case_ms", obs.WallMs)
+		r.Count("zombie_incarnations_after_failed_restart_not_judged", int64(obs.Zombies))
 		seen := map[string]bool{}
 		for _, f := range obs.Findings {
+			if f.Sig == "watchdog" {
+				r.Inconclusive("%s [%s seed=%d]", f.Detail, k.String(), seed)
+				continue
+			}
 			if seen[f.Sig] {
 				continue
 			}
